@@ -239,7 +239,7 @@ class DataArray(Entity, DataSet):
 
     @polynom_coefficients.setter
     def polynom_coefficients(self, coeff):
-        if not coeff:
+        if coeff is None or len(coeff) == 0:
             if self._h5group.has_data("polynom_coefficients"):
                 del self._h5group["polynom_coefficients"]
         else:
